@@ -1,10 +1,10 @@
 #!/bin/bash
-# usage: tools/regress_seeds.sh [jobs]   — applies every seeded change under /verif/seeded to a PRIVATE copy of /repo (never to
+# usage: [REGRESS_FILTER=<regex over seed ids>] tools/regress_seeds.sh [jobs]   — applies every seeded change under /verif/seeded to a PRIVATE copy of /repo (never to
 # /repo itself), runs the quick check of its property in a private copy of /verif, and prints one line per seed. The check is
 # relocatable (VERIF from its own location, REPO from $VERIF_REPO); only the harness' go.mod replace path is rewritten in the
 # copies. Scratch copies live under /tmp and are removed at the end.
 J=${1:-4}
-ls /verif/seeded > /tmp/regress_all.txt
+ls /verif/seeded | grep -E "${REGRESS_FILTER:-.}" > /tmp/regress_all.txt
 for k in $(seq 1 $J); do
   rm -rf /tmp/regress$k; mkdir -p /tmp/regress$k && cp -r /repo /tmp/regress$k/repo && rsync -a --exclude .work --exclude .git /verif/ /tmp/regress$k/verif/ \
     && sed -i "s#=> /repo#=> /tmp/regress$k/repo#" /tmp/regress$k/verif/harness/go.mod
